@@ -15,7 +15,7 @@ use tensor_chain::block::Transaction;
 use tensor_chain::consensus::{ConsensusConfig, ConsensusManager};
 use tensor_chain::deadlock::{DeadlockDetector, DeadlockDetectorConfig, VictimSelectionPolicy, WaitForGraph};
 use tensor_chain::distributed_tx::{
-    lock_handle_current, verif_clock, DistributedTxConfig, DistributedTxCoordinator, LockManager, PrepareRequest,
+    lock_handle_current, verif_clock, verif_sched, DistributedTxConfig, DistributedTxCoordinator, LockManager, PrepareRequest,
     PrepareVote, SerializableLockState, TxPhase,
 };
 use tensor_store::SparseVector;
@@ -695,6 +695,117 @@ fn stress(seed: u64, threads: u64, iters: u64, kk: u64) -> (u64, u64, Vec<String
     (threads * iters, grants.load(Ordering::Relaxed), v)
 }
 
+// ------------------------------------------------------------------------------------ sched kind
+/// Two threads under a forced schedule (guarded hook `verif_sched`, point "wait_graph.add_wait"):
+/// B = handle_prepare(T2) on a key T1 holds; at the moment B is about to record "T2 waits for T1" the finisher
+/// A (abort / commit / cleanup_timeouts of T1) is released and B waits up to `grace` for it to complete.
+/// On the real code B still holds both lock-table guards there, so A blocks until B is done and then erases T1
+/// (and the fresh edge) from the graph.  If the edge were recorded after the lock table is released, A would run
+/// to completion inside the window and B would leave a permanent edge to the finished T1.
+/// Oracle (implementation only): after both calls returned T1 holds no lock and appears nowhere in the graph.
+fn sched_case(finisher: u64, extra_keys: u64, grace_ms: u64) -> (String, Vec<String>) {
+    use std::sync::mpsc;
+    let cfg = DistributedTxConfig { prepare_timeout_ms: 5000, optimistic_locking: false, ..DistributedTxConfig::default() };
+    verif_clock::set(Some(T0));
+    let c = Arc::new(DistributedTxCoordinator::new(ConsensusManager::new(ConsensusConfig::default()), cfg));
+    let req = |tx: u64, ks: &[String]| PrepareRequest {
+        tx_id: tx,
+        coordinator: "n0".to_string(),
+        operations: ks.iter().map(|k| Transaction::Put { key: k.clone(), data: vec![1] }).collect(),
+        delta_embedding: SparseVector::from_dense(&[0.0, 0.0]),
+        timeout_ms: 5000,
+    };
+    // unrelated live holders of f0..fn, also requested by T2 (several blockers)
+    let mut t2_keys = vec![key(0)];
+    for i in 0..extra_keys {
+        let k = format!("f{i}");
+        let _ = c.handle_prepare(&req(9000 + i, &[k.clone()]));
+        t2_keys.push(k);
+    }
+    let t1 = c.begin(&"n0".to_string(), &[0]).expect("begin").tx_id;
+    let v1 = c.handle_prepare(&req(t1, &[key(0)]));
+    let _ = c.record_vote(t1, 0, v1);
+    let t2 = u64::MAX - 77;
+    if finisher == 2 {
+        verif_clock::set(Some(T0 + 5001)); // T1 is past its prepare timeout: cleanup_timeouts will finish it
+    }
+    let (go_tx, go_rx) = mpsc::channel::<()>();
+    let (done_tx, done_rx) = mpsc::channel::<()>();
+    let b_thread: Arc<std::sync::Mutex<Option<std::thread::ThreadId>>> = Arc::default();
+    let fired = Arc::new(std::sync::atomic::AtomicBool::new(false));
+    {
+        let (b_thread, fired) = (b_thread.clone(), fired.clone());
+        let go_tx = std::sync::Mutex::new(go_tx);
+        let done_rx = std::sync::Mutex::new(done_rx);
+        verif_sched::set(Some(Arc::new(move |name: &'static str| {
+            if name != "wait_graph.add_wait" || *b_thread.lock().unwrap() != Some(std::thread::current().id()) {
+                return;
+            }
+            if fired.swap(true, Ordering::SeqCst) {
+                return; // only the first edge of B's request is a schedule point
+            }
+            let _ = go_tx.lock().unwrap().send(());
+            let _ = done_rx.lock().unwrap().recv_timeout(Duration::from_millis(grace_ms));
+        })));
+    }
+    let a = {
+        let c = c.clone();
+        std::thread::spawn(move || {
+            // released by B's schedule point; if B never reaches it (no conflict), run after a while anyway
+            let _ = go_rx.recv_timeout(Duration::from_millis(2000));
+            match finisher {
+                0 => {
+                    let _ = c.abort(t1, "sched");
+                }
+                1 => {
+                    let _ = c.commit(t1);
+                }
+                _ => {
+                    let _ = c.cleanup_timeouts();
+                }
+            }
+            let _ = done_tx.send(());
+        })
+    };
+    let b = {
+        let (c, b_thread, r) = (c.clone(), b_thread.clone(), req(t2, &t2_keys));
+        std::thread::spawn(move || {
+            *b_thread.lock().unwrap() = Some(std::thread::current().id());
+            c.handle_prepare(&r)
+        })
+    };
+    let v2 = b.join().ok();
+    let _ = a.join();
+    verif_sched::set(None);
+    verif_clock::set(None);
+    let mut errs = vec![];
+    if !matches!(v2, Some(PrepareVote::Conflict { .. })) {
+        errs.push(format!("T2 met a held key but was not refused: {v2:?}"));
+    }
+    if c.get(t1).is_some() {
+        errs.push("T1 is still pending after its commit/abort/timeout".to_string());
+    }
+    if c.lock_manager().lock_count_for_transaction(t1) != 0 || c.lock_manager().lock_holder(&key(0)) == Some(t1) {
+        errs.push("finished T1 still holds a key lock".to_string());
+    }
+    let g = c.wait_graph();
+    if g.waiting_for(t2).contains(&t1) || !g.waiting_on(t1).is_empty() || !g.waiting_for(t1).is_empty() {
+        errs.push(format!(
+            "finished T1 still appears in the wait-for graph: waiting_for(T2) contains T1 = {}, |waiting_on(T1)| = {}",
+            g.waiting_for(t2).contains(&t1),
+            g.waiting_on(t1).len()
+        ));
+    }
+    let fin = ["abort(T1)", "commit(T1)", "cleanup_timeouts() with T1 timed out"][finisher as usize];
+    (
+        format!(
+            "schedule: T1 holds k0 (voted Yes); thread B handle_prepare(T2, k0 + {extra_keys} keys of other live holders) runs up to its first add_wait; thread A {fin} is released and given {grace_ms} ms; B continues; then both joined (schedule point reached: {})",
+            fired.load(Ordering::SeqCst)
+        ),
+        errs,
+    )
+}
+
 // ------------------------------------------------------------------------------------ main
 fn main() {
     let args = Args::parse();
@@ -800,11 +911,24 @@ fn main() {
         }
     }
 
+    // ---- sched (implementation-only, forced interleavings through the schedule-point hook)
+    let mut sc = CaseWriter::new(&args.out, "sched");
+    for finisher in 0..3u64 {
+        for extra in [0u64, 3] {
+            let (what, errs) = sched_case(finisher, extra, 40);
+            dist.hit("sched.cases");
+            sc.push(&format!("(* {what} *)"), &what, true);
+            for e in errs.iter().take(2) {
+                hits.push("", &format!("sched: {e}"), json!({"kind": "sched", "schedule": what, "what": e}));
+            }
+        }
+    }
+
     write_meta(
         &args.out,
         json!({
             "property": "C12", "seed": args.seed, "tier": args.tier,
-            "kinds": [coord.summary(), lm.summary(), graph.summary(), st.summary()],
+            "kinds": [coord.summary(), lm.summary(), graph.summary(), st.summary(), sc.summary()],
             "distribution": dist.json(),
             "hits": hits.0,
             "nontrivial_rule": "lm: at least one grant and one refusal; coord: at least one conflict vote and one finished (committed/aborted/timed-out) transaction; graph: the graph has a cycle; stress: some but not all requests granted",
